@@ -32,6 +32,11 @@ pub enum Op {
     Trim,
     Reset,
     Compact(bool),
+    /// update_f64 with these bits (-0.0 and 0.0 are one item, every NaN is one item)
+    F64(u64),
+    /// the u128 item whose MurmurHash3 digest under the case's seed is (h1, h2), through the public update:
+    /// hash h1 >> 1 at will, incl. 0 and 2^63 - 1 (both outside (0, theta))
+    Digest { h1: u64, h2: u64 },
 }
 
 #[derive(Debug, Clone, Serialize, Deserialize)]
@@ -75,6 +80,8 @@ fn op_strategy(big: bool) -> impl Strategy<Value = Op> {
         3 => Just(Op::Trim),
         1 => Just(Op::Reset),
         3 => any::<bool>().prop_map(Op::Compact),
+        3 => prop_oneof![Just(0u64), Just(1u64 << 63), Just(0x7ff8000000000000u64), Just(0xfff8000000000001u64), Just(0x7ff0000000000000u64), any::<u64>()].prop_map(Op::F64),
+        4 => (prop_oneof![Just(0u64), Just(1u64), Just(2u64), Just(3u64), Just(u64::MAX), Just(u64::MAX - 1), Just(u64::MAX - 2), any::<u64>(), (0u64..1 << 41)], any::<u64>()).prop_map(|(h1, h2)| Op::Digest { h1, h2 }),
     ]
 }
 
@@ -238,6 +245,25 @@ pub fn run_case(c: &Case, info: &mut CaseInfo) -> Result<(), Fail> {
                 }
                 m.offered_any = true;
                 full = true;
+            }
+            Op::F64(bits) => {
+                let v = f64::from_bits(*bits);
+                sk.update_f64(v);
+                // Java's canonical form: one zero, one NaN
+                let canon: u64 = if v.is_nan() { 0x7ff8000000000000 } else if v == 0.0 { 0 } else { *bits };
+                let h = refhash::theta_hash(&canon.to_le_bytes(), c.seed);
+                if h != 0 && h < MAX_THETA {
+                    m.h.insert(h);
+                }
+                m.offered_any = true;
+            }
+            Op::Digest { h1, h2 } => {
+                sk.update(refhash::u128_item_for(*h1, *h2, c.seed));
+                let h = *h1 >> 1;
+                if h != 0 && h < MAX_THETA {
+                    m.h.insert(h);
+                }
+                m.offered_any = true;
             }
             Op::InsertHash(h) => {
                 sk.verif_insert_hash(*h);
